@@ -19,6 +19,9 @@ const SHAPES = {
   two: { stmts: ['__out.a = () => <div />;', '__out.b = () => <><i /></>;'], calls: 3 },
   nested: { stmts: ['const z = 1;', '__out.a = () => <div><b><i /></b><></></div>;'], calls: 4 },
   comp: { stmts: ['__out.a = () => <Comp>{x}{y}</Comp>;', '__out.b = () => <p />;'], calls: 2 },
+  // elements that are wrapped (withDirectives) or nested in attribute values / slot objects are vnode calls like any other
+  dirs: { stmts: ['__out.a = () => <div v-show={x} />;', '__out.b = () => <Comp v-foo={y} />;', 'let mvv = 1;\n__out.c = () => <input v-model={mvv} />;'], calls: 3 },
+  attrJsx: { stmts: ['__out.a = () => <div icon=<b/> tip={<i/>} />;', '__out.b = () => <Comp v-slots={{ foo: () => <u/> }} />;'], calls: 5, slots: true },
 };
 // placement of the comment; `leading` = it is the leading comment of the module / a top-level statement
 const PLACEMENTS = {
@@ -28,6 +31,10 @@ const PLACEMENTS = {
   inFunction: { leading: false, put: (cm, st) => ['function unused() {\n  ' + cm.replace(/\n/g, '\n  ') + '\n  return 1;\n}'].concat(st) },
   trailing: { leading: false, put: (cm, st) => st.concat([cm]) },
   afterImport: { leading: true, put: (cm, st) => ["import { isVNode } from 'vue';", cm].concat(st) },
+  // the annotated top-level item is itself an import / export declaration (not the first item of the module)
+  beforeLaterImport: { leading: true, put: (cm, st) => ["import { isVNode } from 'vue';", cm + "\nimport { ref as unusedRef } from 'vue';"].concat(st) },
+  beforeImportAfterStmt: { leading: true, put: (cm, st) => ['const z1 = 1;', cm + "\nimport { ref as unusedRef2 } from 'vue';"].concat(st) },
+  beforeExport: { leading: true, put: (cm, st) => ['const z2 = 2;', cm + '\nexport const exported = z2;'].concat(st) },
 };
 const PRELUDE = 'const { x, y, Comp } = __env.bound;';
 
@@ -64,7 +71,7 @@ function judge(c, resps) {
   withModule(r.eval_js, env, (out, rec, loadError) => {
     if (loadError) { viol.push({ clause: 'load', diff: 'exception:' + loadError.name, msg: errStr(loadError) }); return; }
     try {
-      for (const k of Object.keys(out)) { const v = out[k](); if (v && v.children && typeof v.children === 'object' && typeof v.children.default === 'function') v.children.default(); }
+      for (const k of Object.keys(out)) { const v = out[k](); if (v && v.children && typeof v.children === 'object' && !Array.isArray(v.children)) for (const sk of Object.keys(v.children)) if (typeof v.children[sk] === 'function') v.children[sk](); }
     } catch (e) { viol.push({ clause: 'run', diff: 'exception:' + e.name, msg: errStr(e) }); return; }
     created = rec.vnodes.filter((v) => !v.__text).length;
   });
